@@ -158,28 +158,27 @@ func runC11(c *Ctx) {
 			return true
 		})
 		c.Check(K(f.Name, "creates sender"), f.Pos(), len(lits) == 1, "messageSenderForPeer creates the per-peer sender in one place", "found "+itoa(len(lits)))
-		// the lookup `ms, ok := m.strmap[p]` at function start
+		// the lookup `ms, ok := m.strmap[p]` whose miss guards the creation
 		var lookup *ast.AssignStmt
-		var okObj eng.Object
-		f.Walk(func(n ast.Node) bool {
-			as, isAs := n.(*ast.AssignStmt)
-			if !isAs || len(as.Lhs) != 2 || len(as.Rhs) != 1 || lookup != nil {
-				return true
-			}
-			if ix, isIx := eng.Unparen(as.Rhs[0]).(*ast.IndexExpr); isIx && eng.IsField(info, ix.X, msiT+".strmap") {
-				lookup = as
-				okObj = eng.ObjOf(info, as.Lhs[1])
-			}
-			return true
-		})
-		c.Anchor(lookup != nil, "map lookup in messageSenderForPeer not found")
 		for _, cl := range lits {
 			g, _ := cf.Guarded(cf.LocOf(cl), func(ft eng.Fact) bool {
 				o, truth, isB := ft.BoolVar()
-				return isB && !truth && o == okObj
+				if !isB || truth {
+					return false
+				}
+				rhs, idx := cf.LastAssign(ft.B, o)
+				ix, isIx := eng.Unparen(defOrNil(rhs)).(*ast.IndexExpr)
+				if !isIx || idx != 1 || !eng.IsField(info, ix.X, msiT+".strmap") {
+					return false
+				}
+				if as, isAs := c.P.Parent(ix).(*ast.AssignStmt); isAs {
+					lookup = as
+				}
+				return lookup != nil
 			})
 			c.Check(K(f.Name, "create only when absent"), cl.Pos(), g, "a sender is created only when the map lookup found none", "creation not guarded by !ok of the lookup")
 		}
+		c.Anchor(lookup != nil, "map lookup in messageSenderForPeer not found")
 		stores := assignsTo(f, func(l ast.Expr) bool {
 			ix, ok := eng.Unparen(l).(*ast.IndexExpr)
 			return ok && eng.IsField(info, ix.X, msiT+".strmap")
